@@ -17,7 +17,7 @@ REQUIRED = ["history-checker", "stale-304-check", "fresh-revalidates", "304-empt
 RULE = ("Histories over 19 operations {rewrite same size, rewrite other size, touch, advance clock by 0.4 / 1 / 2.5 s, plain request, request with the validators "
         "of the latest response as ETag / Last-Modified / both / list(first,middle,last) / weak / weak-in-list, the same for the first response (ETag, Last-Modified, "
         "both), '*'} after an initial plain GET: exhaustive to length 3 (thorough 4), random length 7 beyond; targets Files:/f.txt, Pages:/p (-> p.html), "
-        "Pages:/sub/ (-> index.html); both interfaces. Non-trivial = history with >=1 modification between a response and the reuse of its validators; "
+        "Pages:/sub/ (-> index.html); both interfaces; process time zone rotated over UTC, America/Los_Angeles, Asia/Kolkata, Pacific/Kiritimati, Etc/GMT+12. Non-trivial = history with >=1 modification between a response and the reuse of its validators; "
         "exhaustive histories are distinct by construction.")
 ASSUMPTIONS = [
     "file timestamps come from a virtual clock (os.stat is wrapped for sandbox paths only); content is really written to disk",
@@ -64,7 +64,17 @@ def request(iface, app, path, headers):
     return r.status, {k.decode("latin-1").lower(): v.decode("latin-1") for k, v in (r.headers or [])}, r.body, r.exc
 
 
-def run_history(ctx, vfs, iface, app, url_path, file_path, seq, start_frac):
+ZONES = ["UTC", "America/Los_Angeles", "Asia/Kolkata", "Pacific/Kiritimati", "Etc/GMT+12"]
+
+
+def set_zone(z):
+    import time
+    os.environ["TZ"] = z
+    time.tzset()
+
+
+def run_history(ctx, vfs, iface, app, url_path, file_path, seq, start_frac, zone="UTC"):
+    set_zone(zone)  # HTTP dates are GMT whatever the server process's zone is
     clock = 1_000_000.0 + start_frac
     ver = [0]
     content = [b"AAAA"]
@@ -78,7 +88,7 @@ def run_history(ctx, vfs, iface, app, url_path, file_path, seq, start_frac):
 
     write(b"AAAA")
     resp = []
-    case = {"iface": iface, "target": url_path, "ops": list(seq), "start_fraction": start_frac}
+    case = {"iface": iface, "target": url_path, "ops": list(seq), "start_fraction": start_frac, "process_time_zone": zone}
     modified_since_resp = False
     nontriv = False
     for step, op in enumerate(["plain"] + list(seq)):
@@ -204,7 +214,7 @@ def run(ctx):
                     continue
                 # rotate targets so that every history runs on both interfaces and the Pages targets get their share
                 for t in (targets[idx % 4], targets[4 + (idx // 4) % 4]):
-                    nt = run_history(ctx, vfs, t[0], t[1], t[2], t[3], seq, (0.0, 0.3, 0.9)[idx % 3])
+                    nt = run_history(ctx, vfs, t[0], t[1], t[2], t[3], seq, (0.0, 0.3, 0.9)[idx % 3], ZONES[(idx // 3) % len(ZONES)])
                     ctx.case_enum(nt)
         ctx.exhaustive = True
         ctx.extra["exhaustive_bound"] = f"all histories of length <= {maxlen} over {len(OPS)} operations (each on WSGI and ASGI, targets rotated)"
@@ -213,11 +223,12 @@ def run(ctx):
         for i in range(ctx.scale(2500, 150_000)):
             seq = tuple(rng.choice(OPS) for _ in range(rng.randrange(5, 8)))
             t = rng.choice(targets)
-            nt = run_history(ctx, vfs, t[0], t[1], t[2], t[3], seq, rng.choice([0.0, 0.3, 0.9]))
+            nt = run_history(ctx, vfs, t[0], t[1], t[2], t[3], seq, rng.choice([0.0, 0.3, 0.9]), rng.choice(ZONES))
             ctx.case((t[0], t[2], seq) if nt else None)
         ctx.monitors["virtual-stat-calls"] = vfs.calls
     finally:
         vfs.close()
+        set_zone("UTC")
 
 
 def replay(ctx, case):
@@ -226,7 +237,7 @@ def replay(ctx, case):
         targets = setup(ctx)
         for t in targets:
             if t[0] == case["iface"] and t[2] == case["target"]:
-                run_history(ctx, vfs, t[0], t[1], t[2], t[3], tuple(case["ops"]), case.get("start_fraction", 0.0))
+                run_history(ctx, vfs, t[0], t[1], t[2], t[3], tuple(case["ops"]), case.get("start_fraction", 0.0), case.get("process_time_zone", "UTC"))
                 break
         ctx.case(1)
     finally:
